@@ -122,6 +122,76 @@ fn all_cuts(len: usize) -> Vec<Vec<usize>> {
 	v
 }
 
+/// Reference-free long run of every method: a deterministic volatile stream with occasional spikes of six
+/// orders of magnitude, `steps` values; at EVERY step `peek()` must be the value `next()` just returned, and
+/// at checkpoints around every power of two a clone must continue exactly like the original. (State that
+/// is refreshed every 2^k steps - counters, periodic re-summation - gets out of step with what was returned.)
+fn long_run_block(h: &mut H, steps: u64) {
+	let sink = VioSink::new("Methods/long-run-peek+clone");
+	let specs = registry();
+	let total: u64 = specs
+		.par_iter()
+		.map(|sp| {
+			if sp.name == "MAInstance" && false {
+				return 0;
+			}
+			let mut n = 0u64;
+			let params: Vec<Params> = small_params(sp).into_iter().filter(|p| span(p) >= 2).take(2).collect();
+			let params = if params.is_empty() { small_params(sp).into_iter().take(1).collect() } else { params };
+			for p in params {
+				let mk = |k: u64| -> In {
+					let w = (k as f64 * 0.618_033_988_749_894_9).fract();
+					let spike = if k % 1000 == 999 { 1.0e6 } else { 1.0 };
+					let v = (100.0 + 10.0 * w) * spike;
+					match sp.input {
+						InKind::Value => In::V(v as ValueType),
+						InKind::Pair => In::P(v as ValueType, (1.0 + (k % 5) as f64) as ValueType),
+						InKind::Candle => In::C(Candle { open: v as ValueType, high: (v * 1.01) as ValueType, low: (v * 0.99) as ValueType, close: (v * 1.001) as ValueType, volume: (1 + k % 4) as ValueType }),
+					}
+				};
+				let v0 = mk(0);
+				let Ok(Ok(mut m)) = catch(|| (sp.ctor)(&p, &v0)) else { continue };
+				let case = format!("{}({})", sp.name, p.show());
+				let mut failed = false;
+				for k in 0..steps {
+					n += 1;
+					let x = mk(k);
+					let checkpoint = k >= 127 && ((k + 2) & (k + 1) == 0 || (k + 1) & k == 0 || k & k.wrapping_sub(1) == 0);
+					let clone = if checkpoint { Some(m.boxed_clone()) } else { None };
+					let out = match catch(|| m.next(&x)) {
+						Ok(o) => o,
+						Err(pn) => {
+							sink.push(&format!("{}/long-run/panic", sp.name), format!("{case} step {k}"), pn.msg);
+							failed = true;
+							break;
+						}
+					};
+					if sp.peekable {
+						if let Ok(Some(pk)) = catch(|| m.peek()) {
+							if !pk.same_bits(&out) {
+								sink.push(&format!("{}/long-run/peek-not-last-output", sp.name), format!("{case} step {k}"), format!("next() returned {}, peek() = {}", out.show(), pk.show()));
+								failed = true;
+							}
+						}
+					}
+					if let Some(mut c) = clone {
+						let o2 = c.next(&x);
+						if !o2.same_bits(&out) {
+							sink.push(&format!("{}/long-run/clone-continues-differently", sp.name), format!("{case} step {k}"), format!("original {}, clone taken just before {}", out.show(), o2.show()));
+							failed = true;
+						}
+					}
+					if failed {
+						break;
+					}
+				}
+			}
+			n
+		})
+		.sum();
+	h.run.enum_block("Methods/long run: peek after every step, clones at power-of-two checkpoints", total, total.max(2), true, serde_json::json!(format!("{steps} steps per method and parameter set")), sink.into_violations());
+}
+
 fn api_block(h: &mut H, maxlen: usize) {
 	let sink = VioSink::new("Methods/api");
 	let specs = registry();
@@ -283,6 +353,18 @@ impl System for IndSys {
 					return Step::Violation(Failure::new(format!("{name}/instance-over/differs-from-next"), format!("cut at {cut}")));
 				}
 			}
+			// the same stream carried by a user-defined OHLCV type that overrides the derived prices: `over` must
+			// pass the user's values on exactly as `next` does (no conversion to `Candle` on the way)
+			{
+				let i = match cfg.init(&n.hist[0]) {
+					Ok(i) => i,
+					Err(e) => return Step::Violation(Failure::new(format!("{name}/init"), format!("{e:?}"))),
+				};
+				let (via_over, via_next) = i.custom_type_runs(stream);
+				if via_over.iter().map(rbits).collect::<Vec<_>>() != via_next.iter().map(rbits).collect::<Vec<_>>() {
+					return Step::Violation(Failure::new(format!("{name}/instance-over/differs-from-next/user-defined-candle-type"), String::new()));
+				}
+			}
 			let i = cfg.init(&n.hist[0]).unwrap();
 			let got = i.into_fn_calls(stream);
 			if got.iter().map(rbits).collect::<Vec<_>>() != n.outs {
@@ -329,6 +411,7 @@ fn main() {
 	h.enum_replay("Methods/api", |_| None);
 	if !h.is_replay() {
 		api_block(&mut h, if thorough { 5 } else { 4 });
+		long_run_block(&mut h, if thorough { 4_300_000 } else { 1_100_000 });
 	}
 	let ks = alpha::k_candles();
 	let d = if thorough { 5 } else { 4 };
